@@ -103,6 +103,8 @@ PROPS = {
             dict(name="chunk", pkg="./client/", test="TestVerifChunk", min_lines=1000),
             dict(name="queue", pkg="./queue/", test="TestVerifQueue", min_lines=1000,
                  oracles=["chunk_not_contiguous_with_allocation", "emits_allocated_file"], diffs=["pop-slice", "pop-send"]),
+            dict(name="send", pkg="./client/", test="TestVerifSend", min_lines=500,
+                 oracles=["part_forwarded_twice", "forwarded_differs_from_reported_head"], diffs=[]),
         ],
         rule=QUEUE_RULE + (" chunk: exhaustive size 1..24 x chunk 1..9 x payload 10..32 (thorough 40x12x45) for one new file, payload sizes 1..9 sampled, "
               "every sorted disjoint record of <=3 ranges over 0..8 (thorough 0..11) x chunk {1,3,20}, plus seeded random cases of 1..3 files "
@@ -317,6 +319,7 @@ PROPS = {
         coq="Properties/C07.v",
         suites=[e2e_suite("crash,crashfail,crashgone", ["sent_log_record_repeated_after_restart", "resent_bytes_receiver_reported_held", "not_delivered_after_sender_restart", "deleted_without_validated_copy", "source_gone_receiver_lacks_it", "released_without_positive_answer"], n=14),
                 dict(name="chunk", pkg="./client/", test="TestVerifChunk", min_lines=1000, oracles=["chunks_not_tiling_missing"], diffs=["left", "left-kind", "chunks"]),
+                e2e_suite("reuse", ["deleted_without_validated_copy", "source_gone_receiver_lacks_it"], n=9),
                 CACHE_SUITE],
         rule=E2E_RULE + CACHE_RULE,
         level_text=("Proof (plan level) + crash enumeration: the restart plan re-sends ranges only for an unconfirmed, unchanged, partly received file and "
@@ -333,6 +336,7 @@ PROPS = {
         suites=[dict(name="scan", pkg="./client/", test="TestVerifScan", min_lines=300, timeout_quick=600,
                      env_quick={"VERIF_N": 700}, env_thorough={"VERIF_N": 20000}),
                 e2e_suite("eligible,reuse,mutate,plain,swap", ["ineligible_file_sent_or_deleted", "delivered_mixture_of_versions", "not_delivered_within_bound", "source_gone_receiver_lacks_it"]),
+                e2e_suite("crash", ["resent_bytes_receiver_reported_held"], n=8),
                 CACHE_SUITE],
         rule=CACHE_RULE + (" scan: the REAL store.Local.Scan + Broker.includeScannedFile + Broker.scan (hashing, cache.JSON) on generated trees (15 names: nested, hidden "
               "files and directories, ignored, lock, included / not included, a name with a space, a symbolic link) x minimum age {0, 10 s, 60 s} x hidden on/off x "
@@ -355,6 +359,7 @@ PROPS = {
         suites=[e2e_suite("plain,faults,eligible,pollnone", ["not_delivered_within_bound", "pipeline_never_drains_after_vanished_file", "staging_area_not_empty_at_the_end"], n=12),
                 e2e_suite("mutate,vanish", ["not_delivered_within_bound", "not_confirmed_after_rewrite_in_flight", "pipeline_never_drains_after_vanished_file"], n=8),
                 e2e_suite("crashfail,crash", ["not_delivered_after_sender_restart"], n=6),
+                e2e_suite("ring", ["not_delivered_within_bound"], n=3),
                 race_suite(["held_file_never_released_although_predecessor_logged", "complete_file_not_delivered"]),
                 dict(STAGE_SUITE, oracles=["positive_status_without_copy"], diffs=["status"])],
         rule=E2E_RULE + RACE_RULE + " " + STAGE_RULE,
@@ -370,7 +375,7 @@ PROPS = {
         coq="Properties/C16.v",
         suites=[e2e_suite("stop", ["stop_now_did_not_terminate", "stop_now_not_prompt", "graceful_stop_did_not_terminate", "graceful_stop_left_work_undone", "confirmed_left_unrecorded_at_exit"], n=24),
                 e2e_suite("plain,faults,vanish", ["pipeline_never_drains_after_vanished_file"], n=8),
-                e2e_suite("stopfail,stopretry,stopjam", ["graceful_stop_did_not_terminate", "stop_now_did_not_terminate", "stop_now_not_prompt"], n=5),
+                e2e_suite("stopfail,stopretry,stopjam,stopburst", ["graceful_stop_did_not_terminate", "stop_now_did_not_terminate", "stop_now_not_prompt", "graceful_stop_left_delivered_files_unpolled"], n=5),
                 dict(CACHE_SUITE, oracles=["restart_finds_other_than_persisted"])],
         rule=E2E_RULE + CACHE_RULE,
         level_text=("Partial. Proof: every poll verdict resolves the file and only confirmed files are recorded done. Exploration: both kinds of stop injected at "
@@ -385,7 +390,8 @@ PROPS = {
         coq="Properties/C19.v",
         suites=[dict(name="conf", pkg=".", test="TestVerifConf", min_lines=1000),
                 dict(name="tags", pkg="./main/", test="TestVerifTags", min_lines=100, timeout_quick=600,
-                     env_quick={"VERIF_N": 150}, env_thorough={"VERIF_N": 3000})],
+                     env_quick={"VERIF_N": 150}, env_thorough={"VERIF_N": 3000}),
+                e2e_suite("reuse", ["deleted_before_delete_delay"], n=9)],
         rule=("conf: seeded documents generated from the schema: 1..3 sources each with threads / min-age / compress / poll-attempts / out-dir / target "
               "(key, quic-enable-datagrams, http3-port) / stat-payload / include-hidden / error-backoff / include / ignore and 0..3 tags (priority, order, "
               "chunk-size, last-delay, delete), every option omitted / explicitly zero-or-false / given; rendered as YAML or JSON (50/50), parsed by the real "
@@ -477,3 +483,4 @@ PROPS = {
         assumptions=["names are valid UTF-8", "integers within +-10^19 (covers int64)", "the consumer reads each part to its end (io.Copy in Stage.Receive) before asking for the next"],
     ),
 }
+PROPS["C19"]["rule"] += " " + E2E_RULE + " (here: profile reuse with its delayed-deletion variant - the tag has a delete-delay of 8 s: no file may be deleted younger than that)"
